@@ -33,6 +33,11 @@ func vRunCase(c vCase) (result string, obs []vObs) {
 		vS.known[k] = true
 	}
 	st := vS
+	defer func() {
+		for _, d := range st.tempDirs {
+			os.RemoveAll(d)
+		}
+	}()
 	done := make(chan string, 1)
 	go func() {
 		defer func() {
